@@ -157,6 +157,20 @@ def run(ctx):
                     cmd = cls(**kw)
             fr = cmd.to_frame()
             body = fr.hl_packet.serialize()[2:]
+            if k % 4 == 0:
+                # encoding and decoding are functions of the value alone: a second run gives the same result
+                body2 = cmd.to_frame().hl_packet.serialize()[2:]
+                if body2 != body:
+                    ctx.counterexample("encoding-twice-differs", dict(cls=qn), hx(body), hx(body2),
+                                       "the same command object encodes to different bytes the second time")
+                if ((hdr >> 8) & 0xFF) in (1, 2):
+                    try:
+                        d1, d2 = cls.from_frame(cmd.to_frame()), cls.from_frame(cmd.to_frame())
+                        if d1 != d2:
+                            ctx.counterexample("decoding-twice-differs", dict(cls=qn, bytes=hx(body)), repr(d1)[:120], repr(d2)[:120],
+                                               "the same bytes decode to different commands the second time")
+                    except Exception:
+                        pass      # reported by the round-trip check below
             strs = codecio.to_strings(idx, cmd)
             lines.append("enc %d %s" % (idx, " ".join(strs)))
             lines.append("dec %d %s" % (idx, hx(body[4:])))
